@@ -18,16 +18,28 @@ def kit_classes():
     global _KIT
     if _KIT is None:
         from moclo.core._structured import StructuredRecord
-        from moclo._utils import isabstract
         out = {}
         for kit in KIT_MODULES:
             m = importlib.import_module("moclo.kits." + kit)
             for name, obj in sorted(vars(m).items()):
                 if inspect.isclass(obj) and issubclass(obj, StructuredRecord) \
-                        and obj.__module__ == m.__name__ and not isabstract(obj):
+                        and obj.__module__ == m.__name__ and is_concrete(obj):
                     out["%s.%s" % (kit, name)] = obj
         _KIT = out
     return _KIT
+
+
+def is_concrete(cls):
+    """A class a user can instantiate: a cutter is declared and its structure
+    can be derived (own criterion; moclo's helper is code under test)."""
+    if inspect.isabstract(cls) or getattr(cls, "cutter", NotImplemented) is NotImplemented:
+        return False
+    if getattr(cls, "signature", None) is NotImplemented:
+        return False
+    try:
+        return isinstance(cls.structure(), str)
+    except NotImplementedError:
+        return False
 
 
 def kit_class_names():
